@@ -124,6 +124,7 @@ func mkTree(k int) *tree {
 		file(in("index.html.gz"))
 		file(in("sub/b.txt.br"))
 		file(in("sub/b.txt.gz"))
+		file(in("sub/b.txt.gz.br")) // only reachable if the sibling loop does not stop at the first hit
 	}
 	if k%3 == 0 {
 		dir(in("a.txt.gz")) // a directory where a pre-compressed sibling is expected
@@ -301,6 +302,13 @@ func gen(r *hv.Rng, i int, tier string) (string, hv.Val) {
 	ae := ""
 	if compress || r.Chance(1, 4) {
 		ae = r.Pick(aes)
+		if compress && r.Chance(1, 2) {
+			ae = r.Pick([]string{"gzip, br", "br,gzip", "gzip", "br", "br, gzip, deflate"})
+		}
+	}
+	if compress && class == "inside" && r.Chance(1, 2) { // files that have pre-compressed siblings in some trees
+		target = r.Pick([]string{"/index.html", "/sub/b.txt", "/a.txt", "/sub/b.txt.gz", "/sub/./b.txt", "/x/../sub/b.txt"})
+		class = "sibling"
 	}
 	if compress {
 		class += "+gz"
